@@ -22,6 +22,12 @@ def _state(case, pd, h):
     sc[2::3] = h * case['wscale']
     sc[0::3] = h * case['wscale'] ** 2 * h / min(pd.a, pd.b) * 5. + h * case['uscale']
     sc[1::3] = sc[0::3]
+    kind = case.get('state_kind', 'general')
+    if kind == 'membrane-only':
+        sc[2::3] = 0.       # pre-buckling membrane state of a single panel: in-plane amplitudes only, every w amplitude exactly zero
+    elif kind == 'bending-only':
+        sc[0::3] = 0.
+        sc[1::3] = 0.
     return a * sc
 
 
@@ -47,6 +53,7 @@ def check_panel(case, ctx):
     wmax = np.max(np.abs(c[2::3])) if own else 0.
     coupledB = np.max(np.abs(F[:3, 3:])) > 1e-9 * np.max(np.abs(F[:3, :3])) * h
     ctx.nontrivial = bool(wmax >= 0.5 * h and coupledB)
+    ctx.label('state:' + case.get('state_kind', 'general'))
     ctx.label('model:' + case['model'], 'table:' + case['table'], 'gauss:%s' % ('exact' if exact else 'under'),
               'm:%d' % pd.m, 'n:%d' % pd.n)
     Fn = None
@@ -325,6 +332,7 @@ def _panel_strategy(draw, tier='quick'):
     case['coords'] = [draw(st.integers(0, 400)) for _ in range(3)]
     case['npath'] = draw(st.integers(1, 3))
     case['table_layout'] = draw(st.sampled_from(['C', 'C', 'F', 'T', 'strided']))
+    case['state_kind'] = draw(st.sampled_from(['general', 'general', 'general', 'membrane-only', 'bending-only']))
     case['c_form'] = draw(st.sampled_from(['contiguous', 'contiguous', 'strided', 'column']))   # calc_kT insists on an ndarray (explicit TypeError)
     return case
 
